@@ -18,6 +18,18 @@ class Head(packet.Packet):
         formats.UInt8Field('version', default=None),
     ]
 
+    def pre_dissect(self, s):
+        ''' The fixed-size part must be complete before decoding. '''
+        if len(s) < 5:
+            raise formats.VerifyError('Contact header is incomplete')
+        return s
+
+    def post_dissection(self, pkt):
+        ''' Verify that the version-specific part is present. '''
+        if not self.payload:
+            raise formats.VerifyError('Contact header without version-specific part')
+        packet.Packet.post_dissection(self, pkt)
+
 
 class ContactV3(formats.NoPayloadPacket):
     ''' TCPCLv3 contact header pseudo-message. '''
